@@ -8,7 +8,14 @@
      lit      <<"", "KEY", ...>> parallel to keyname: a component that is a fixed text rather than arbitrary bytes
               ("KEY" two before the end; identities may themselves contain components spelt KEY, self,
               cert-request at any depth - the certificate name is still key-name / issuer-id / version)
-     publen   length of the public key (the certificate content)
+     enc      how the caller ENCODES that key in the bytes it hands over (EncsOf): the canonical DER
+              SubjectPublicKeyInfo an exporter produces ("spki"), the same key in any other encoding ("spki-compressed"
+              point, "spki-explicit" curve parameters, bare "pkcs1" RSAPublicKey, "pem" text, "openssh" text, a bare
+              "point" / "raw" key, ...), or "opaque": bytes that are no key encoding at all.  The issuing calls take
+              "key bits": whatever is handed over IS the public key of the statement
+     pubbuf   the Python buffer the bytes are handed over in (BufKinds); a writable one is overwritten by the caller
+              after the call ("given" = the bytes at the time of the call)
+     publen   length of the bytes given (the certificate content)
      issuer   [t, l]            the issuer-id component the caller asks for
      idform   how the caller writes it for derive_cert: "comp" (an encoded component) or text in NDN URI
               syntax - "plain" (unreserved characters), "escaped" (%XX escapes), "typed" (<type>=<value>),
@@ -31,7 +38,7 @@
               certificate does not depend on host either
 
    expected certificate = Data packet CertCfg(q) (NdnPackets!Final): name = keyname / issuer / version,
-   MetaInfo{ContentType = KEY, FreshnessPeriod = 3 600 000}, Content = public key,
+   MetaInfo{ContentType = KEY, FreshnessPeriod = 3 600 000}, Content = exactly the bytes given (ContentExpect),
    SignatureInfo{type, KeyLocator = signer's, ValidityPeriod{NotBefore, NotAfter}}, SignatureValue of the
    actual length with every enclosing length exact.                                             *)
 EXTENDS NdnPackets, CertTime
@@ -41,6 +48,32 @@ SelfComp == [t |-> 8, l |-> 4]          \* "self"
 ReqComp == [t |-> 8, l |-> 12]          \* "cert-request"
 Epoch == Inst(0, 0)
 Now(q) == Inst(q.clock.d, q.clock.s)
+
+\* ---- the bytes of the subject key ("whose content is exactly the given public key")
+KeyTypes == {"ec256", "ec384", "rsa", "ed25519"}
+EcEncs == {"spki", "spki-compressed", "spki-explicit", "pem", "pem-compressed", "openssh", "point", "point-compressed"}
+RsaEncs == {"spki", "spki-noparams", "pkcs1", "pkcs1-padded", "pem", "pem-pkcs1", "openssh"}     \* -padded: modulus with a surplus leading zero
+EdEncs == {"spki", "pem", "openssh", "raw"}
+EncsOf(k) == (IF k \in {"ec256", "ec384"} THEN EcEncs ELSE IF k = "rsa" THEN RsaEncs ELSE EdEncs) \cup {"opaque"}
+BufKinds == {"bytes", "bytearray", "memoryview", "memoryview-slice"}
+\* encodings the importers of a relying party (the library's checkers: ECC.import_key / RSA.import_key on the
+\* Content) do not read: explicit curve parameters, bare points / raw keys without a curve name, non-keys.
+\* (cross-validated against PyCryptodome on the bytes GIVEN, every run: a disagreement is a machinery failure)
+Unreadable == {"spki-explicit", "point", "point-compressed", "raw", "opaque"}
+Readable(q) == q.enc \notin Unreadable
+\* the issuing key is the subject key itself (the harness keeps ONE key per type: P-256 signs with reserve 72, P-384 with 104)
+OwnKey(q) == \/ q.subj = "ec256" /\ q.sg.kind = "ecdsa" /\ q.sg.r = 72
+             \/ q.subj = "ec384" /\ q.sg.kind = "ecdsa" /\ q.sg.r = 104
+             \/ q.subj = "rsa" /\ q.sg.kind = "rsa"
+             \/ q.subj = "ed25519" /\ q.sg.kind = "ed25519"
+\* what is observed of the Content of the certificate:
+\*   is       "given" (byte for byte what was handed over) | "other" | "absent"
+\*   key      what a relying party imports from it: "subject" (the subject's key) | "other-key" | "unreadable"
+\*   carried  a checker built from (key locator, Content) accepts the certificate
+\* The expectation does not depend on enc beyond readability, nor on pubbuf at all: no encoding is rewritten.
+ContentExpect(q) == [is |-> "given", key |-> IF Readable(q) THEN "subject" ELSE "unreadable", carried |-> Readable(q) /\ OwnKey(q)]
+ContentClause(q, o) == IF o.is # "given" THEN 7 ELSE IF o.key # ContentExpect(q).key THEN 8
+                       ELSE IF ContentExpect(q).carried /\ ~o.carried THEN 9 ELSE 1
 
 IssuerComp(q) == IF q.fn = "self_sign" THEN SelfComp ELSE IF q.fn = "sign_req" THEN ReqComp ELSE q.issuer   \* derive, new_cert
 CertName(q) == q.keyname \o <<IssuerComp(q), [t |-> TVersion, l |-> MsWidth(q.clock)]>>
@@ -80,7 +113,8 @@ LawCert(q) ==
   /\ nm.kids[Len(nm.kids)].t = TVersion /\ nm.kids[Len(nm.kids)].len \in {1, 2, 4, 8}
   /\ CompsOf(nm)[Len(nm.kids) - 1] = IssuerComp(q)
   /\ KidTypes(F.kids[2]) = <<TContentType, TFreshness>> /\ F.kids[2].kids[1].len = 1 /\ F.kids[2].kids[2].len = 4
-  /\ F.kids[3].len = q.publen
+  /\ F.kids[3].len = q.publen /\ q.enc \in EncsOf(q.subj) /\ q.pubbuf \in BufKinds
+  /\ ContentClause(q, ContentExpect(q)) = 1 /\ ContentClause(q, [ContentExpect(q) EXCEPT !.is = "other"]) = 7
   /\ LET si == F.kids[4]  vp == si.kids[Len(si.kids)] IN
        /\ vp.t = TValidity /\ KidTypes(vp) = <<TNotBefore, TNotAfter>> /\ vp.kids[1].len = 15 /\ vp.kids[2].len = 15
        /\ si.kids[1].t = TSigType
@@ -103,5 +137,5 @@ CertExpect(q) ==
   [lay |-> Flat(Final(c)), signed |-> SignedRange(c), sv |-> <<SigValueRange(c)>>,
    nb |-> NotBefore(q), na |-> NotAfter(q),
    nbr |-> ValidityRanges(q).nb, nar |-> ValidityRanges(q).na,
-   klr |-> KeyLocatorRange(q), sameday |-> (q.fn # "self_sign" \/ HasSameDay(Now(q), 20))]
+   klr |-> KeyLocatorRange(q), content |-> ContentExpect(q), sameday |-> (q.fn # "self_sign" \/ HasSameDay(Now(q), 20))]
 =============================================================================
